@@ -220,19 +220,40 @@ def shared_step(key, mk):
     return _SHARED_STEPS[key]
 
 
+_STALE: list = []   # (scenarios in which the components stored on the individuals differ from what the fitness function returned)
+
+
 def lexicase_run(shape, comps, mins, eps, k, rec):
     rep = StubRep(len(mins))
     problem, inds = build(rep, shape, {o: 0 for o in set(shape)}, comps, "multi", mins)
+    if (len(shape) + k + len(mins)) % 3 == 0:
+        # a fitness function that fills and returns ONE preallocated list of floats (a common optimisation in user code): what
+        # selection reads later are the values returned at the time of each call, not the buffer's last content
+        from geneticengine.problems import MultiObjectiveProblem
+        buf: list = []
+
+        def into_buffer(p, buf=buf):
+            buf[:] = [float(x) for x in p[2]]
+            return buf
+        problem = MultiObjectiveProblem(minimize=list(mins), fitness_function=into_buffer, best_individual_criteria_function=lambda p: p[1])
     # (the form the population arrives in rotates with the case; no extra random draw)
     form = ("list", "iterator", "tuple", "generator")[(len(shape) + k + len(mins)) % 4]
     # every other case reuses ONE long-lived step object (problems with other optimisation directions came before)
     step = shared_step(("lexicase", eps), lambda: LexicaseSelection(epsilon=eps)) if (len(shape) + 2 * k + sum(mins)) % 2 == 0 else LexicaseSelection(epsilon=eps)
     res = run_selection(step, problem, rep, rec, inds, k, form)
-    return lib_pop(inds, problem), res
+    truth = [[i.genotype[0], i.genotype[1], [int(c) for c in i.genotype[2]]] for i in inds]
+    stored = lib_pop(inds, problem)
+    if stored != truth:
+        _STALE.append((truth, stored))
+    return truth, res
 
 
 def emit_lexicase(h: Harness, pop, res, rec, script, mins, eps, k, tag):
     n, nc = len(pop), len(mins)
+    while _STALE:
+        truth, stored = _STALE.pop()
+        h.fail("LexicaseSelection.apply", "selects-on-components-the-fitness-function-did-not-return",
+               f"after lexicase selection the individuals carry (id, aggregate, components) {stored}; the fitness function returned {truth} for them", [truth, stored])
     replay = {"population": pop, "minimize": mins, "epsilon": eps, "target_size": k, "script": script}
     nontrivial = n >= 2 and k >= 1
     h.count(f"lexicase:{tag}:n={n}:eps={eps}")
